@@ -31,7 +31,7 @@ function* configs(tier) {
   const thorough = tier === 'thorough';
   for (const bools of product(BOOLS.map(() => tri))) {
     const absent = bools.filter((b) => b === undefined).length;
-    for (const pragma of [undefined, 'hh', null]) for (const pats of [undefined, [], ['^i-']]) for (const unknown of [false, true]) {
+    for (const pragma of [undefined, 'hh', null]) for (const pats of [undefined, [], ['^i-'], ['^zz$', '^i\\x2d\\w+$']]) for (const unknown of [false, true]) {
       // quick tier: the full 3^5 boolean cube with the other dimensions at their first value, and the other dimensions fully where ≥3 booleans are absent
       if (!thorough && !((pragma === undefined && pats === undefined && !unknown) || absent >= 4)) continue;
       const cfg = {};
@@ -112,8 +112,9 @@ function judge(c, resps) {
     for (const entry of ['visitor', 'plugin']) for (const p of PROBES) {
       const a = resps[k++], b = resps[k++];
       if (a.parse_error || b.parse_error) return { engineError: 'probe does not parse: ' + (a.parse_error || b.parse_error) };
-      if (b.opts_error) return { engineError: 'explicit config rejected: ' + b.opts_error };
+      // every generated configuration is valid (the patterns are valid regular expressions, whatever JSON escapes spell them)
       if (a.opts_error) { viol.push({ clause: 'config-accepted', diff: `${entry}:rejected`, msg: `valid configuration rejected by the ${entry} entry: ${a.opts_error}` }); continue; }
+      if (b.opts_error) return { engineError: 'explicit config rejected: ' + b.opts_error };
       if (a.panic || b.panic || a.died || b.died) continue;
       seen.push(hash(a.printed || ''));
       if (a.printed !== b.printed) viol.push({ clause: 'defaults', diff: `${p.name}:differs-from-documented-default`, msg: `[${entry}] probe for ${p.name}: output under this configuration differs from the output under the same configuration with every absent key set to its documented default`, expected: b.printed, observed: a.printed });
